@@ -16,7 +16,7 @@ TRUSTED = [
 ASSUMPTIONS = [
     "feed ids unique, baseline ids unique",
     "FeedConsistent: a feed row whose id is in the baseline carries the baseline's postal code (excluded point = known finding KF-1)",
-    "a feed row with a NaN count is outside the main stream; under the bootstrap estimator it poisons every aggregate (known finding KF-4)",
+    "a feed row with a NaN count: the count is missing, the unit is passed through and adds nothing to that estimand's sums (under the bootstrap estimator this collapsed every aggregate until fix F-16; the case is kept as a corpus case)",
     "outlier models off (their flagged sets are an oracle, exercised by C09)",
 ]
 RULE = (
@@ -41,7 +41,7 @@ def kf1_case(rng):
 
 
 def kf4_case(rng):
-    """known finding KF-4: bootstrap + a feed row with a NaN count"""
+    """bootstrap + a feed row with a NaN count (former known finding KF-4, repaired by F-16): regression case"""
     c = A.gen_case(rng, pi_method="bootstrap", roles=["reporting"] * 6 + ["partial", "nan-estimand"], unexpected=False)
     e = c["election"]
     c["policy"] = "drop"
